@@ -173,6 +173,32 @@ theorem c01_astrans (p : SessParams) (r : RouteReq) (bs : Bytes)
     · have hb' : hasBig (wantPath p r) = false := by simpa using hb
       simp [semAsPath, h4, hpl, hb', gRaw, mk, Attr.code, AttrVal.code]
 
+/-- **A path with confederation segments on a 2-octet session (finding F99).**  With the confederation segments
+    `c` in front (RFC 5065) and the AS_SEQUENCE / AS_SET segments `q` behind: AS_PATH carries the whole path with
+    AS_TRANS for every AS number above 65535; AS4_PATH is sent exactly when `q` holds such a number and carries `q`
+    only (RFC 6793 §3: no confederation segment in it); what the receiver reconstructs (RFC 6793 §4.2.3) is `c` as it
+    travelled followed by the true `q`; and when no AS4_PATH is sent the AS_PATH already is that. -/
+theorem c01_confed_path (p : SessParams) (c q : List Seg) (h4 : p.asn4 = false)
+    (hc : ∀ s ∈ c, s.1 ≠ 1 ∧ s.1 ≠ 2) (hq : ∀ s ∈ q, (s.1 = 1 ∨ s.1 = 2) ∧ 1 ≤ s.2.length) :
+    semAsPath p (c ++ q) =
+      mk (paramsOf p) false true (.asPath (transSegs (c ++ q))) ::
+        (if hasBig q then [mk (paramsOf p) true true (.as4Path q)] else []) ∧
+    merge6793 (transSegs (c ++ q)) q = transSegs c ++ q ∧
+    (hasBig q = false → transSegs (c ++ q) = transSegs c ++ q) := by
+  have hpl : plainSegs (c ++ q) = q := plainSegs_confed_append c q hc (fun s hs => (hq s hs).1)
+  refine ⟨?_, ?_, ?_⟩
+  · simp [semAsPath, h4, hpl]
+  · have := merge_trans_confed c q hc hq
+    rwa [hpl] at this
+  · intro hb
+    have : transSegs q = q := transSegs_id q hb
+    simp only [transSegs, List.map_append] at this ⊢
+    rw [this]
+
+-- {( 65001 300000 )} ( 200000 100 ): the confederation member above 65535 travels as AS_TRANS, the rest is whole
+example : merge6793 (transSegs [(3, [65001, 300000]), (2, [200000, 100])]) (plainSegs [(3, [65001, 300000]), (2, [200000, 100])]) =
+    [(3, [65001, 23456]), (2, [200000, 100])] := by decide
+
 /-- **When nothing is announced.** The encoder raises only for `next-hop self` on an IPv6 route when
     the session's local address is IPv4 (no address to put: `ip_self` refuses), never otherwise. -/
 theorem c01_raised_iff (p : SessParams) (r : RouteReq) :
